@@ -9,6 +9,16 @@ P = {
              note="No bound beyond the stated case split (exhaustive). Tables are the values computed by the real init() (dumped natively each run). Trusted: gosmx encoder incl. its constant folder, z3."),
  "C11": dict(ref="§4 C11", text="one arbitrary operation (Put/Probe/GetEntry/Clear/Resize/AgeEntries/Hashfull) from an arbitrary table state satisfying the representation invariant; capacity a symbolic power of two up to 2^32, contents an uninterpreted SMT array; inductive over all operation sequences",
              note="AgeEntries unrolled for capacities 2^0..2^6 (quick) / 2^10 (thorough), goroutine bodies executed sequentially (no race claim). floor(log2(float64(x))) modelled as highest-set-bit index. Known findings: MoveNone value loss, key 0 as empty marker."),
+ "C02": dict(ref="§4 C02", text="DoMove vs the mail-box rule model (VxSpecDoMove) one step from an arbitrary well-formed position: all 13^64 boards, side, rights, ep, clocks, undo-stack height 0..510 and every pseudo-legal move symbolic; induction over move sequences",
+             note="Case split on the move type only. Assumes the position is well-formed (one king per colour, no pawns on back ranks, castling rights only with king/rook at home, consistent ep square) - weaker than legality. Rule model (harness/position/zz_vx_spec.go) is trusted; FEN text building is checked in C16."),
+ "C03": dict(ref="§4 C03", text="DoMove;UndoMove and DoNullMove;UndoNullMove restore every field incl. the undo stack below the top, from arbitrary (even inconsistent) additive totals and hash key; origin/destination/move type case-split (16384 cases; quick: 192 by seed), rest symbolic",
+             note="Nested sequences follow by induction (inner pair only writes slots above its base); two-level nesting re-checked on 256 seeded move pairs in thorough. Bitboards arbitrary except on the squares the move touches."),
+ "C04": dict(ref="§4 C04", text="DoMove/DoNullMove change material, non-pawn material, both piece-square sums, game phase and hash key by exactly the rule-defined per-square delta (pre-state totals arbitrary), bitboards/king squares equal their recomputation; Zobrist table entries non-zero and pairwise distinct",
+             note="Uses the sum-difference lemma (changing the board on a set D changes a per-square sum/XOR by the differences on D), stated in DESIGN.md, not machine-checked. Base case (FEN set-up establishes totals == recomputation incl. ep file and castling state in the key) is part of C16's FEN harness. 16384 concrete (from,to,type) cases; quick 192 by seed."),
+ "C09": dict(ref="§4 C09", text="IsAttacked (all 64 squares x both colours, with run-time checks = 'never fails'), HasCheck incl. cache, GivesCheck, IsCapturingMove, IsLegalMove, DoMove+WasLegalMove against the mail-box rule model on a fully symbolic legal position",
+             note="Sliding lookups summarised by the geometric ray walk that C18 proves equal to GetAttacksBb. GivesCheck compared for legal moves only (a king 'checking' a king is not defined). Move predicates: 16384 concrete (from,to,type) cases, quick 96 by seed. AttacksTo: see harness/attacks."),
+ "C10": dict(ref="§4 C10", text="CheckRepetitions(n) == (#earlier equal positions >= n) for every history of length <= 16 (quick) / 40 (thorough) with symbolic keys and clocks; HasInsufficientMaterial on symbolic piece counts 0..10 per kind and colour; clock update is C02's obligation",
+             note="Repetition: positions identified with 64-bit keys (collisions excluded as the property states); assumes three game-history facts (clock steps, parity, no reset between equal positions) that follow from C02."),
 }
 NA = {}
 for i in range(1,21):
